@@ -191,7 +191,11 @@ class Model:
         Returns:
           Pair variable information.
         """
-        if hasattr(self,'pairs'):
+        lp_vars_string = ''
+        # The brute force solver never creates the lp decision variables.
+        has_lp_vars = any(
+            hasattr(pair, 'lp_var') for pair_row in self.pairs for pair in pair_row)
+        if hasattr(self,'pairs') and has_lp_vars:
             lp_vars_string = 'Main lp decision variables:\n'
             for pair_row in self.pairs:
                 for pair in pair_row:
